@@ -79,6 +79,26 @@ CLAIMS["C16"] = dict(
               "element-wise encoding)",
     ref="3/C16")
 
+CLAIMS["C03"] = dict(
+    text="Inductive step over the real Filter class (shadow of filter.py: "
+         "__init__, reset, update, _init_rtdc_ds, __getitem__, array "
+         "helpers) and the current downsample_rand source: the pre-state "
+         "(previous settings, cached per-feature box arrays, cached polygon "
+         "results, manual array) is arbitrary subject to the representation "
+         "invariant, the current settings are arbitrary (ranges present/"
+         "absent/changed/reversed/equal, polygon filters added/removed/"
+         "modified, flags, limit), data are reals-or-NaN; z3 proves "
+         "filter.all == stateless specification and that the invariant is "
+         "re-established, which covers setting histories of any length.",
+    note="Trusted: z3, symx, numpy shim, stubs for the dataset/config/"
+         "PolygonFilter objects (polygon classification is an uninterpreted "
+         "boolean per (filter, version, event); C15 covers it). Bounds: 2 "
+         "(3) events, 2 ranged features, <= 2 polygon filters.",
+    technique="symbolic execution of the real Python code objects + z3, "
+              "one inductive step from an arbitrary invariant-satisfying "
+              "state",
+    ref="3/C03")
+
 NOT_APPLICABLE = {
 }
 
